@@ -123,6 +123,20 @@ def check_mapping(st, sub, scn, reg, certain, may, absent, expect_ids=None):
     if n != len(keys):
         st.violation(sub, "len-differs-from-number-of-keys", scn, len(keys), n)
     ks = set(keys)
+    # the rest of the Mapping interface must tell the same story as iteration and item access
+    try:
+        k2, items, vals = list(reg.keys()), list(reg.items()), list(reg.values())
+        if k2 != keys:
+            st.violation(sub, "keys()-differs-from-iteration", scn, keys, k2)
+        if [k for k, _ in items] != keys or len(vals) != len(keys):
+            st.violation(sub, "items()-or-values()-differ-from-iteration", scn, keys, [[k for k, _ in items], len(vals)])
+        else:
+            for (k, it), v in zip(items, vals):
+                if it.id != k or v.id != k:
+                    st.violation(sub, "items()-pairs-a-key-with-another-item", dict(scn, key=k), k, [it.id, v.id])
+                    break
+    except Exception as e:
+        st.violation(sub, "mapping-interface-raises-" + type(e).__name__, scn, "keys/items/values", str(e)[:200])
     if certain is not None:
         if not certain <= ks:
             st.violation(sub, "plasmid-file-not-listed", scn, sorted(certain), sorted(ks))
@@ -174,6 +188,12 @@ def check_mapping(st, sub, scn, reg, certain, may, absent, expect_ids=None):
             inn = "raises " + type(e).__name__
         if inn is not False:
             st.violation(sub, "absent-key-contained", dict(scn, key=k), False, inn)
+        try:
+            g = reg.get(k, "dflt")
+        except Exception as e:
+            g = "raises " + type(e).__name__
+        if g != "dflt":
+            st.violation(sub, "get-of-absent-key-does-not-return-the-default", dict(scn, key=k), "dflt", str(g)[:80])
     return keys
 
 
